@@ -52,9 +52,10 @@ Proof. vm_compute. repeat split; reflexivity. Qed.
 (* ===== parts (2)/(3): resolution ===== *)
 (* the specification (RFC 3986 5.2) splits and recomposes without loss *)
 Check (recompose_parse5 : forall s, recompose (parse5 s) = s).
-Check (resolve_impl_no_path : forall base ref,
+(* on references without a path (empty, "?query", "#fragment") the resolver IS RFC 3986 5.2 *)
+Check (resolve_impl_no_path_spec : forall base ref,
   match ref with [] => true | c :: _ => N.eqb c k_qmark || N.eqb c k_hash end = true ->
-  resolve_impl base ref <> None).
+  resolve_impl base ref = Some (resolve base ref)).
 (* defects on record (see Proofs.v): the pre-fix regexes, the resolver's panic and its deviations
    from RFC 3986 5.2, and the fact that 5.2 itself is not closed under validity *)
 
@@ -83,7 +84,7 @@ Print Assumptions translator_atoms_agree.
 Print Assumptions everything_aligned.
 Print Assumptions grammar_examples.
 Print Assumptions recompose_parse5.
-Print Assumptions resolve_impl_no_path.
+Print Assumptions resolve_impl_no_path_spec.
 Print Assumptions prefix_iri_refuted.
 Print Assumptions prefix_irel_refuted.
 Print Assumptions resolve_panics_refuted.
